@@ -41,6 +41,8 @@ T0 = 1_700_000_000
 
 
 def content(kind, ver):
+    if ver == "E":
+        return b""                                   # "arbitrary file contents" includes none at all (an empty configuration file)
     # executable and unit: both versions have the same length and differ in one character (a size or
     # mtime comparison cannot tell them apart); configuration: B is longer than A; eBPF object: A is longer
     # than B (a copy that does not truncate its destination leaves the tail of the longer one behind)
@@ -58,6 +60,7 @@ VER_OF = {}
 for k in FILES:
     for v in "AB":
         VER_OF[(k, hashlib.sha256(content(k, v)).hexdigest())] = v
+VER_OF[("config", hashlib.sha256(b"").hexdigest())] = "E"
 
 
 def put(path, data, mode, mtime):
@@ -266,7 +269,7 @@ def fnv(data):
 
 
 def sha_state(vers):
-    return tuple(fnv(content(k, v)) if v in ("A", "B") else None for k, v in zip(FILES, vers))
+    return tuple(fnv(content(k, v)) if v in ("A", "B", "E") else None for k, v in zip(FILES, vers))
 
 
 ALLOWED_WRITE_PREFIXES = [D + "/ProxyAgent/Backup", D + "/setup", "/dev/null", "/dev/tty", SYSTEMCTL_LOG, SYSTEMCTL_STATE, "/proc/self", "/dev/pts"]
@@ -329,6 +332,8 @@ def main():
         ("A-installed,service-activating", State(("A",) * 4, (None,) * 4, "B", "activating")),
         # the operator has stopped the service
         ("A-installed+backup-of-A,service-inactive", State(("A",) * 4, ("A",) * 4, "B", "inactive")),
+        # the installed configuration file is empty
+        ("A-installed-with-an-empty-configuration-file", State(("A", "E", "A", "A"), (None,) * 4, "B", "active")),
     ]
     replay = os.environ.get("VERIF_REPLAY")
     only = None
@@ -433,7 +438,7 @@ def main():
                     if len(samples) < 4:
                         samples.append({"initial": iname, "commands": hist + [cmd], "state": {"system": obs.sys, "backup": obs.backup, "service": obs.svc}})
             # headline from every reachable state with a complete installation: backup; install the other version; restore
-            if all(v in ("A", "B") for v in s.sys) and not only:
+            if all(v in ("A", "B", "E") for v in s.sys) and not only:
                 other = "B" if s.sys[0] == "A" else "A"
                 cur = s
                 ok = True
@@ -457,7 +462,7 @@ def main():
     res["coverage"] = {
         "states": len(states_seen), "transitions": transitions, "traces_validated_against_impl": transitions,
         "headline_round_trips": headline, "strace_write_set_audits": trace_audits, "depth_bound": depth, "exhaustive": True,
-        "rule": "BFS to depth %d over {backup, install (package A or B beside the tool), restore, uninstall service, uninstall package, purge} from 7 initial states (nothing installed; A installed; A + backup of A; A + stale backup of B; A (+ backup) with the service crash-looping ('activating'); A + backup with the service stopped), deduplicated on the canonical file tree (version of each of the four system files and four backup files) and the service's run state; every transition runs the real release build of proxy_agent_setup on a freshly materialised tree with a recording, stateful systemctl stand-in (run state active / activating / inactive; is-active, stop, start, enable, disable answer and fail as documented for systemctl, e.g. disable of a unit without unit file exits 1); install and restore are judged on 'no system file changes while the service is not stopped' and 'started afterwards, after the last file' from the fingerprints the stand-in takes at every call (query verbs are not judged); from every reachable complete installation the round trip backup, install other version, restore is executed; the two versions of the executable and of the unit have equal length, the configuration grows and the eBPF object shrinks from A to B; realistic mtimes (package < backup < installed)" % depth,
+        "rule": "BFS to depth %d over {backup, install (package A or B beside the tool), restore, uninstall service, uninstall package, purge} from 8 initial states (incl. one with an empty configuration file) (nothing installed; A installed; A + backup of A; A + stale backup of B; A (+ backup) with the service crash-looping ('activating'); A + backup with the service stopped), deduplicated on the canonical file tree (version of each of the four system files and four backup files) and the service's run state; every transition runs the real release build of proxy_agent_setup on a freshly materialised tree with a recording, stateful systemctl stand-in (run state active / activating / inactive; is-active, stop, start, enable, disable answer and fail as documented for systemctl, e.g. disable of a unit without unit file exits 1); install and restore are judged on 'no system file changes while the service is not stopped' and 'started afterwards, after the last file' from the fingerprints the stand-in takes at every call (query verbs are not judged); from every reachable complete installation the round trip backup, install other version, restore is executed; the two versions of the executable and of the unit have equal length, the configuration grows and the eBPF object shrinks from A to B; realistic mtimes (package < backup < installed)" % depth,
         "samples": samples,
     }
     res["assumptions"] = ["restore always deletes the backup: the release CLI accepts no value for delete_backup",
